@@ -750,11 +750,97 @@ def run(ctx):
     ctx.expect(okz, "R18.6", "__getitem__[results zipped with misses]",
                "download results are paired with the very list of misses that was downloaded", gi.loc())
     # worker resolution: every miss gets a download function or the call raises
+    one_cache_per_directory_rule(ctx, p)
     ctx.require_count("R18.1", 8)
     ctx.require_count("R18.2", 6)
     ctx.require_count("R18.3", 9)
     ctx.require_count("R18.4", 4)
     ctx.require_count("R18.5", 10)
     ctx.require_count("R18.6", 2)
+    ctx.require_count("R18.7", 1)
     ctx.functions_analysed.update({f.qualname: 1 for f in fc_funcs})
     ctx.calls_resolved += cg.stats()["call_sites_resolved"]
+
+
+def _path_wrappers(f_node, expr, name):
+    """the chain of single-argument path functions (outermost first) applied to the parameter/local `name` in `expr`, following
+    reassignments `name = g(name)` and single-assigned locals of the function; None when expr is not such a chain"""
+    la = local_assignments(f_node)
+    chain = []
+    seen = 0
+    e = expr
+    while seen < 12:
+        seen += 1
+        if isinstance(e, ast.Call) and len(e.args) == 1 and not e.keywords and isinstance(e.func, (ast.Attribute, ast.Name)):
+            chain.append((dotted(e.func) or "").split(".")[-1])
+            e = e.args[0]
+            continue
+        if isinstance(e, ast.Name):
+            defs = [d for d in la.get(e.id, []) if d[0] == "assign" and d[1] is not expr]
+            selfref = [d for d in defs if any(isinstance(x, ast.Name) and x.id == e.id for x in ast.walk(d[1]))]
+            if e.id == name and not defs:
+                return chain
+            if e.id == name and len(defs) == 1 and selfref:
+                # name = g(name): continue below the reassignment
+                inner = _path_wrappers_of_selfref(defs[0][1], name)
+                return None if inner is None else chain + inner
+            if e.id != name and len(defs) == 1:
+                e = defs[0][1]
+                continue
+        return None
+    return None
+
+
+def _path_wrappers_of_selfref(e, name):
+    chain = []
+    while isinstance(e, ast.Call) and len(e.args) == 1 and not e.keywords:
+        chain.append((dotted(e.func) or "").split(".")[-1])
+        e = e.args[0]
+    return chain if isinstance(e, ast.Name) and e.id == name else None
+
+
+def _path_normal_form(chain):
+    """(absolute?, user-expanded?) - abspath/realpath/normpath make a spelling canonical, expanduser only matters below them"""
+    absolute = any(c in ("abspath", "realpath", "resolve") for c in chain)
+    user = "expanduser" in chain
+    return absolute, user
+
+
+def one_cache_per_directory_rule(ctx, p):
+    """R18.7: `create_cache` refuses a second cache on a directory already in use by comparing the new path with the `path` of
+    every active cache.  That comparison is between two spellings of a directory, so both sides must have gone through the same
+    normalisation: the path stored by FileCache.__init__ (normalisation in __init__ applied to what create_cache passes) and the
+    value compared with it."""
+    fq = "filecache.filecache.create_cache"
+    if fq not in p.functions:
+        ctx.unsure("R18.7", "create_cache", "function not found", "")
+        return
+    cc = p.get_function(fq)
+    cmps = [n for n in own_walk(cc.node) if isinstance(n, ast.Compare) and len(n.ops) == 1 and isinstance(n.ops[0], ast.Eq)
+            and any(isinstance(x, ast.Attribute) and x.attr == "path" for x in [n.left] + n.comparators)]
+    ctor = [c for c in calls(cc.node) if call_name(c) == "FileCache"]
+    init = p.get_method(FC, "__init__")
+    if len(cmps) != 1 or len(ctor) != 1:
+        ctx.unsure("R18.7", "create_cache[one cache per directory]", "comparison of the new path with the paths in use, or the "
+                   "construction of the cache, not found", cc.loc())
+        return
+    other = [x for x in [cmps[0].left] + cmps[0].comparators if not (isinstance(x, ast.Attribute) and x.attr == "path")][0]
+    b = binding.bind_by_name(init, ctor[0], True) or {}
+    pname = init.params[1] if len(init.params) > 1 else "path"
+    arg = b.get(pname)
+    stores = [n for n in own_walk(init.node) if isinstance(n, ast.Assign) and any(dotted(t) == "self.path" for t in n.targets)]
+    cparam = next((x.id for x in ast.walk(other) if isinstance(x, ast.Name) and x.id in cc.params), None)
+    if arg is None or len(stores) != 1 or cparam is None:
+        ctx.unsure("R18.7", "create_cache[one cache per directory]", "path argument / stored path not identified", cc.loc())
+        return
+    c_cmp = _path_wrappers(cc.node, other, cparam)
+    c_arg = _path_wrappers(cc.node, arg, cparam)
+    c_init = _path_wrappers(init.node, stores[0].value, pname)
+    if None in (c_cmp, c_arg, c_init):
+        ctx.unsure("R18.7", "create_cache[one cache per directory]", "a path is built in a form the rule does not read", cc.loc(cmps[0]))
+        return
+    stored, compared = _path_normal_form(c_init + c_arg), _path_normal_form(c_cmp)
+    ctx.expect(stored == compared, "R18.7", "create_cache[one cache per directory]",
+               "the path compared with the paths of the active caches went through the same normalisation as the path a cache stores: "
+               "otherwise a second cache is accepted on a directory in use whenever it is spelled differently", cc.loc(cmps[0]),
+               derived=f"stored: {'('.join(c_init + c_arg) or 'as given'}; compared: {'('.join(c_cmp) or 'as given'}")
